@@ -374,6 +374,22 @@ def _alias_forms(spec, ctx, R):
                 continue
             _t2_check(ctx, "product_T2", path + ":alias:" + lab, C, ref_x, ref_y, extra={"form": lab, "n": n})
         ctx.check("operands_unchanged", bool(np.array_equal(refq.fa(A), before)), site="alias:" + lab)
+    # the SAME SparseQuaternionMatrix object as both factors (squaring, powers), its own conjugate transpose, and a second container that shares
+    # the component matrices: matrix squaring has no scalar shortcut (the component matrices do not commute)
+    S = R.sparse_from_dense(A)
+    S2 = U.SparseQuaternionMatrix(S.real, S.i, S.j, S.k, S.shape)
+    SH = U.quat_hermitian(S)
+    Ad, AH = np.array(A, copy=True), refq.herm(A)
+    for lab, call, rx, ry in (("S@S:quat_matmat", lambda: U.quat_matmat(S, S), Ad, Ad), ("S@S:operator", lambda: S @ S, Ad, Ad),
+                              ("S@shared_components", lambda: U.quat_matmat(S, S2), Ad, Ad), ("S@S^H", lambda: U.quat_matmat(S, SH), Ad, AH),
+                              ("S^H@S", lambda: SH @ S, AH, Ad), ("(S@S)@S", lambda: U.quat_matmat(U.quat_matmat(S, S), S), refq.matmul(Ad, Ad), Ad)):
+        try:
+            Cs = call()
+            Cs = densify(Cs) if isinstance(Cs, U.SparseQuaternionMatrix) else Cs
+            _t2_check(ctx, "product_T2", "ss:alias:" + lab, Cs, rx, ry, extra={"form": lab, "n": n})
+        except Exception as e:
+            ctx.check("product_T2", False, site="ss:alias:" + lab, detail={"exception": repr(e)[:200]})
+    ctx.check("operands_unchanged", bool(np.array_equal(refq.fa(densify(S)), refq.fa(Ad))), site="alias:sparse_container")
     ctx.hit("forms:aliased_operands")
     # a result fed back as an operand, three times
     P = A
